@@ -800,6 +800,10 @@ func (f *Factory) replayEdge(idx int, e *Edge, names []string) (EdgeResult, erro
 		okInv = false // a modification time of the base changed under a read-only wrapper
 	}
 
+	if ev.Leak {
+		okInv = false // a path handed back, or embedded in an error, shows the base path of the BasePathFS
+	}
+
 	okHs := e.Hs == nil || sameHs(ev.Hs, e.Hs)
 	if e.Um != nil && *e.Um != ev.Um {
 		okHs = false // the parent's umask changed
@@ -829,7 +833,7 @@ func (f *Factory) replayEdge(idx int, e *Edge, names []string) (EdgeResult, erro
 			}
 
 			if ResEqual(e.Call.Op, ev.Res, a.Res) && EqualPost(ev.Post, f.adapt(a.Post)) && ev.Cwd.Render() == a.Cwd.Render() &&
-				sameHs(ev.Hs, a.Hs) && ev.Srt && ev.Inv == "ok" && !(e.Wrap != "" && len(trace) > 1 && (e.Wrap == "rofs" || e.Wrap == "failro") && trace[len(trace)-2].Mt != ev.Mt) {
+				sameHs(ev.Hs, a.Hs) && ev.Srt && ev.Inv == "ok" && (!ev.Leak || a.Kf != "") && !(e.Wrap != "" && len(trace) > 1 && (e.Wrap == "rofs" || e.Wrap == "failro") && trace[len(trace)-2].Mt != ev.Mt) {
 				r.Status, r.Kf = "explained", a.Kf
 
 				return r, nil
